@@ -431,9 +431,64 @@ func (e *Engine) funcValues(v ssa.Value, depth int) []*ssa.Function {
 				}
 				return out
 			}
+			// a captured cell holding a closure
+			if fv, ok := x.X.(*ssa.FreeVar); ok {
+				if al := cellOf(fv); al != nil {
+					var out []*ssa.Function
+					for _, st := range cellStores(al) {
+						out = append(out, e.funcValues(st.Val, depth+1)...)
+					}
+					return out
+				}
+			}
+			// an element of a local slice of functions (`for _, f := range undoFuncs { f() }`): every closure the
+			// function (or its closures) ever appends to that slice
+			if ia, ok := x.X.(*ssa.IndexAddr); ok {
+				return e.sliceElemFuncs(ia.X, depth+1, map[ssa.Value]bool{})
+			}
 		}
 	}
 	return nil
+}
+
+// sliceElemFuncs: the functions a local slice of function values may contain, traced through the cell that holds the
+// slice (also when captured by closures), append calls and slice literals. Unknown sources yield nothing.
+func (e *Engine) sliceElemFuncs(v ssa.Value, depth int, seen map[ssa.Value]bool) []*ssa.Function {
+	if depth > 10 || v == nil || seen[v] {
+		return nil
+	}
+	seen[v] = true
+	var out []*ssa.Function
+	switch x := v.(type) {
+	case *ssa.UnOp:
+		if x.Op == token.MUL {
+			if al := cellOf(x.X); al != nil {
+				for _, st := range cellStores(al) {
+					out = append(out, e.sliceElemFuncs(st.Val, depth+1, seen)...)
+				}
+			}
+		}
+	case *ssa.Phi:
+		for _, ed := range x.Edges {
+			out = append(out, e.sliceElemFuncs(ed, depth+1, seen)...)
+		}
+	case *ssa.Call:
+		if bi, ok := x.Common().Value.(*ssa.Builtin); ok && bi.Name() == "append" && len(x.Common().Args) == 2 {
+			out = append(out, e.sliceElemFuncs(x.Common().Args[0], depth+1, seen)...)
+			if els := sliceLiteralElems(x.Common().Args[1]); els != nil {
+				for _, el := range els {
+					out = append(out, e.funcValues(el, depth+1)...)
+				}
+			} else {
+				out = append(out, e.sliceElemFuncs(x.Common().Args[1], depth+1, seen)...)
+			}
+		}
+	case *ssa.Slice:
+		for _, el := range sliceLiteralElems(x) {
+			out = append(out, e.funcValues(el, depth+1)...)
+		}
+	}
+	return out
 }
 
 // IsCallTo reports whether instruction `in` is a call (incl. defer/go) that
